@@ -127,6 +127,14 @@ CLAIMED["C18"] = dict(
     note=TRUST + " Python's json module is the JSON oracle; non-ASCII strings are outside the Go model's Quote; control characters in strings are a known finding (json_escape_string is %q).",
 )
 
+CLAIMED["C11"] = dict(
+    category="other",
+    technique="Coq model of the Pratt loop (expr_bp, arg_list, binding powers) and of the call re-association in lowering, plus a printer with only the necessary parentheses; pinned theorem on the binding-power table; the model is compared with the real parser+lowering on the same token strings inside coqc; print/parse round trip of exhaustive operator pairs/triples and random trees and literal fidelity are evaluated on the real parser (AST Debug dump) and, for printed strings, through Sem/GoSem.v",
+    text="binding_powers_as_documented (left associativity r = l+1, the documented level order, calls/fields/prefix above every binary operator; no axioms). Round trip: every operator pair in both shapes, triples in five shapes, prefix x binary, calls, fields, tuples, 1500+ random trees with random trivia must parse back to the same ast::Expr; the Coq parser/lowering/printer model must agree on the same cases. Literals: strings with every escape spelling, multi-line strings (LF and CRLF), integer/float spellings via the AST, and printed output of compiled programs. The unbounded round-trip theorem for the model is not proved yet.",
+    design_ref="DESIGN.md §4 C11",
+    note=TRUST + " Items, patterns and types are not printed from trees (their losslessness is C12's); three call-association deviations are known findings and masked in the generator.",
+)
+
 NOT_YET = {}
 
 def main():
